@@ -21,7 +21,9 @@ Section CKTypes.
   Inductive uform := UScalar (u : V) | USeq2 (a b : V) | USeq4 (a b c d : V) | USeqBad.
   Inductive cunop := CUf (f : unop) | CUconj.
   Inductive carg := CArgC (i : nat) | CArgR (i : nat) | CArgN (x : cnumv).
-  Inductive cattr := CR_x | CR_u | CR_v | CR_r.
+  Inductive cattr := CR_x | CR_u | CR_v | CR_r | CR_df.
+  (* the r argument of core.set_correlation: a float or a sequence *)
+  Inductive rform := RScalar (r : V) | RSeq (l : list V).
   Inductive cop :=
   | CK (o : op V)                                  (* an operation of the real kernel *)
   | CUcomplex (z : cnumv) (u : uform) (df : dfval V) (label : option Z) (indep : bool)
@@ -32,7 +34,8 @@ Section CKTypes.
   | CResult (a : nat) (label : option Z)
   | CRead (at_ : cattr) (a : nat)
   | CSens (y x : carg)
-  | CUComp (y x : carg).
+  | CUComp (y x : carg)
+  | CSetCorr (r : rform) (a : nat) (b : option carg).   (* core.set_correlation(r, z, arg2), z complex *)
 
   Record cmeta := mkCM {
     cm_im : nat;                                   (* slot of the imaginary component *)
@@ -43,7 +46,9 @@ Section CKTypes.
     cm_r : option V }.
   Inductive centry := CObj (m : cmeta) | CAliasOf (i : nat).
   (* a complex object is named by the slot of its real component *)
-  Record cstate := mkCS { ks : state V; cobjs : list (nat * centry) }.
+  (* wacc: the class attributes _EnsembleComponents.sum_sq_u11 / sum_sq_u22 / sum_sq_diag, which
+     persist between calls of willink_hall (None = the initial Python None) *)
+  Record cstate := mkCS { ks : state V; cobjs : list (nat * centry); wacc : option (V * V * V) }.
 End CKTypes.
 
 Arguments NR {V}. Arguments NC {V}. Arguments UScalar {V}. Arguments USeq2 {V}. Arguments USeq4 {V}.
@@ -51,10 +56,10 @@ Arguments USeqBad {V}.
 Arguments CArgC {V}. Arguments CArgR {V}. Arguments CArgN {V}.
 Arguments CK {V}. Arguments CUcomplex {V}. Arguments CConstant {V}. Arguments CMultiple {V}.
 Arguments CUn {V}. Arguments CBin {V}. Arguments CResult {V}. Arguments CRead {V}.
-Arguments CSens {V}. Arguments CUComp {V}.
+Arguments CSens {V}. Arguments CUComp {V}. Arguments CSetCorr {V}. Arguments RScalar {V}. Arguments RSeq {V}.
 Arguments mkCM {V}. Arguments cm_im {V}. Arguments cm_label {V}. Arguments cm_elem {V}.
 Arguments cm_u {V}. Arguments cm_v {V}. Arguments cm_r {V}.
-Arguments CObj {V}. Arguments CAliasOf {V}. Arguments mkCS {V}. Arguments ks {V}. Arguments cobjs {V}.
+Arguments CObj {V}. Arguments CAliasOf {V}. Arguments mkCS {V}. Arguments ks {V}. Arguments cobjs {V}. Arguments wacc {V}.
 
 Section CKernel.
   Variable C : CNum.
@@ -65,7 +70,7 @@ Section CKernel.
   Notation out := (out V). Notation cstate := (cstate V). Notation cmeta := (cmeta V).
   Notation pyn := (pyn C). Notation jac := (jac C).
 
-  Definition cinit (ctx : Z) : cstate := mkCS (init N ctx) [].
+  Definition cinit (ctx : Z) : cstate := mkCS (init N ctx) [] None.
 
   Definition to_pyn (x : cnumv V) : pyn :=
     match x with NR v => PR v | NC a b => PC a b end.
@@ -141,21 +146,27 @@ Section CKernel.
   Definition of_same (a : sarg) : res cpart :=
     match a with
     | (Some j, OpdU o) => Ok (COld j o)
+    | (None, OpdU o) => Ok (CNew o)          (* a temporary or a fresh constant *)
+    | _ => Err OtherExn
+    end.
+  Definition sarg_of (c : cpart) : sarg :=
+    match c with CNew o => (None, OpdU o) | COld j o => (Some j, OpdU o) end.
+
+  Definition bin_part (f : binop) (x y : sarg) : res cpart :=
+    v <- apply_bin N f (snd x) (snd y) ;;
+    match v with
+    | VObj o => Ok (CNew o)
+    | VSame L => (match snd x with OpdU _ => of_same x | OpdN _ => of_same y end)
+    | VSame Rt => (match snd y with OpdU _ => of_same y | OpdN _ => of_same x end)
     | _ => Err OtherExn
     end.
 
-  Definition rexp_val (sre sim : nat * ureal) (oth : cother) (othslots : option nat * option nat)
-             (e : rexp V) : res cpart :=
+  Fixpoint rexp_val (sre sim : nat * ureal) (oth : cother) (othslots : option nat * option nat)
+           (e : rexp V) : res cpart :=
     match e with
     | RBin f a b =>
         x <- rarg_val sre sim oth othslots a ;; y <- rarg_val sre sim oth othslots b ;;
-        v <- apply_bin N f (snd x) (snd y) ;;
-        match v with
-        | VObj o => Ok (CNew o)
-        | VSame L => (match snd x with OpdU _ => of_same x | OpdN _ => of_same y end)
-        | VSame Rt => (match snd y with OpdU _ => of_same y | OpdN _ => of_same x end)
-        | _ => Err OtherExn
-        end
+        bin_part f x y
     | RUn f a =>
         x <- rarg_val sre sim oth othslots a ;;
         match snd x with
@@ -167,6 +178,10 @@ Section CKernel.
                     end
         | OpdN _ => Err TypeError
         end
+    | RNest f e1 b =>
+        c <- rexp_val sre sim oth othslots e1 ;; y <- rarg_val sre sim oth othslots b ;;
+        bin_part f (sarg_of c) y
+    | RArg a => x <- rarg_val sre sim oth othslots a ;; of_same x
     end.
 
   (* ---------- results of an operation on complex operands ---------- *)
@@ -200,6 +215,7 @@ Section CKernel.
         Ok (RReal (VObj (mk3 (n_real C y) (fun p => merge_w (p a) (n_real C w1) (p b) (n_real C w2)))))
     | CPhase =>
         v <- apply_bin N B_atan2 (OpdU (snd sim)) (OpdU (snd sre)) ;; Ok (RReal v)
+    | CPromL | CPromR => Err OtherExn       (* handled by [promote_pow] *)
     end.
 
   Definition gc_unop (f : cunop) : cplx C -> pyn -> res (cres C) :=
@@ -267,6 +283,43 @@ Section CKernel.
     | OthNone => Err TypeError
     end.
 
+  (* ---------- uncertain real (op) plain complex number: lib._add ... lib._rpow ---------- *)
+  Definition gr_bin (f : binop) (rev : bool) : res (cplx C -> pyn -> res (cres C)) :=
+    match f, rev with
+    | B_add, false => Ok (gr_add_c C) | B_add, true => Ok (gr_radd_c C)
+    | B_sub, false => Ok (gr_sub_c C) | B_sub, true => Ok (gr_rsub_c C)
+    | B_mul, false => Ok (gr_mul_c C) | B_mul, true => Ok (gr_rmul_c C)
+    | B_div, false => Ok (gr_div_c C) | B_div, true => Ok (gr_rdiv_c C)
+    | B_pow, false => Ok (gr_pow_c C) | B_pow, true => Ok (gr_rpow_c C)
+    | B_atan2, _ => Err TypeError
+    end.
+
+  (* x + 0j (lib._add with rhs = 0j) : the temporary UncertainComplex the ** fall-backs build *)
+  Definition promote (x : nat * ureal) : res (cpart * cpart) :=
+    r <- gr_add_c C (ux (snd x), f0) (PC f0 f0) ;;
+    v <- realize_c r x x (OthR (snd x)) (Some (fst x), None) ;;
+    match v with RCplx re im => Ok (re, im) | _ => Err OtherExn end.
+
+  (* T ** other / other ** T for the promoted temporary T: UncertainComplex.__pow__ / __rpow__;
+     `return self` is then the temporary itself *)
+  Definition promote_pow (rev : bool) (x : nat * ureal) (oth : cother) (othslots : option nat * option nat)
+    : res cval :=
+    '(re, im) <- promote x ;;
+    v <- capply_bin B_pow rev (O, comp_obj re) (O, comp_obj im) oth othslots ;;
+    match v with
+    | RSelf => mk_cplx re im
+    | _ => Ok v
+    end.
+
+  (* x (op) c, c (op) x for an uncertain real x and a plain COMPLEX number c *)
+  Definition rapply_bin_c (f : binop) (rev : bool) (x : nat * ureal) (c : pyn) : res cval :=
+    g <- gr_bin f rev ;; r <- g (ux (snd x), f0) c ;;
+    match r with
+    | CPromL => promote_pow false x (OthN c) (None, None)
+    | CPromR => promote_pow true x (OthN c) (None, None)
+    | _ => realize_c r x x (OthR (snd x)) (Some (fst x), None)
+    end.
+
   (* ---------- state access ---------- *)
   Fixpoint nassoc {A} (l : list (nat * A)) (i : nat) : option A :=
     match l with
@@ -301,10 +354,11 @@ Section CKernel.
     end.
 
   Definition nslots (s : cstate) : nat := length (s_slots (ks s)).
-  Definition kpush (s : cstate) (sl : slot) : cstate := mkCS (push N (ks s) sl) (cobjs s).
-  Definition with_ks (s : cstate) (k : state) : cstate := mkCS k (cobjs s).
+  Definition kpush (s : cstate) (sl : slot) : cstate := mkCS (push N (ks s) sl) (cobjs s) (wacc s).
+  Definition with_ks (s : cstate) (k : state) : cstate := mkCS k (cobjs s) (wacc s).
+  Definition with_acc (s : cstate) (a : option (V * V * V)) : cstate := mkCS (ks s) (cobjs s) a.
   Definition set_meta (s : cstate) (j : nat) (m : cmeta) : cstate :=
-    mkCS (ks s) (nassoc_set (cobjs s) j (CObj m)).
+    mkCS (ks s) (nassoc_set (cobjs s) j (CObj m)) (wacc s).
 
   Definition cfail1 (s : cstate) (e : exn) : cstate * out := (kpush s SErr, OutExn e).
   Definition cfail2 (s : cstate) (e : exn) : cstate * out := (kpush (kpush s SErr) SErr, OutExn e).
@@ -321,7 +375,7 @@ Section CKernel.
     let (sr, outr) := comp_slot re in
     let (si, outi) := comp_slot im in
     (mkCS (push N (push N (ks s) sr) si)
-          (cobjs s ++ [(i, CObj (mkCM (S i) label elem None None None))]),
+          (cobjs s ++ [(i, CObj (mkCM (S i) label elem None None None))]) (wacc s),
      OutList [outr; outi]).
 
   Definition is_elem_c (re im : cpart) : bool :=
@@ -335,10 +389,23 @@ Section CKernel.
     | Ok RSelf =>
         let '(j, _, (jr, _), (ji, _)) := self in
         let i := nslots s in
-        (mkCS (push N (push N (ks s) (SAlias jr)) (SAlias ji)) (cobjs s ++ [(i, CAliasOf j)]),
+        (mkCS (push N (push N (ks s) (SAlias jr)) (SAlias ji)) (cobjs s ++ [(i, CAliasOf j)]) (wacc s),
          OutSame j)
     | Ok (RCplx re im) => push_cplx s re im None (is_elem_c re im)
     | Ok (RReal _) => cfail2 s OtherExn
+    end.
+
+  (* an operation on uncertain-real / plain operands that may promote to complex: always two
+     slots (a real result is followed by an empty slot) *)
+  Definition finish_any (s : cstate) (v : res cval) (ia ib : nat) : cstate * out :=
+    match v with
+    | Err e => cfail2 s e
+    | Ok (RCplx re im) => push_cplx s re im None (is_elem_c re im)
+    | Ok (RReal (VObj o)) => (kpush (kpush s (SReal o None)) SErr, dump N o)
+    | Ok (RReal (VSame L)) => (kpush (kpush s (SAlias ia)) SErr, OutSame ia)
+    | Ok (RReal (VSame Rt)) => (kpush (kpush s (SAlias ib)) SErr, OutSame ib)
+    | Ok (RReal (VPlain x)) => (kpush (kpush s (SNum x)) SErr, OutVal x)
+    | Ok _ => cfail2 s OtherExn
     end.
 
   Definition finish_real (s : cstate) (v : res cval) : cstate * out :=
@@ -642,6 +709,407 @@ Section CKernel.
     | CArgN _ => cfail1 s RuntimeError
     end.
 
+  (* ---------- willink_hall (lib.py 4267-4653) ---------- *)
+  Definition acc3 := option (V * V * V).        (* sum_sq_u11, sum_sq_u22, sum_sq_diag *)
+  Definition pow2 (x : V) : res V := libm2 N F_pow x (of_Z N 2).
+  Definition two_f : V := dyad N 2 0.
+
+  (* x / nu for a degrees-of-freedom value (x / inf = x * 0.0 bit for bit) *)
+  Definition div_nu (x : V) (nu : dfval V) : res V :=
+    match nu with
+    | DInf => Ok (mul N x f0)
+    | DFin v => div N x v
+    | DNaN => Err OtherExn
+    end.
+
+  (* the three `+=` of _EnsembleComponents.accumulate / of the independent loop, in source order;
+     a failure part-way leaves the earlier updates in place *)
+  Definition acc_add (a : acc3) (v11 v12 v22 : V) (nu : dfval V) : acc3 * option exn :=
+    match a with
+    | None => (a, Some TypeError)                 (* None += float *)
+    | Some (s11, s22, sd) =>
+        match div_nu (mul N v11 v11) nu with
+        | Err e => (a, Some e)
+        | Ok q1 =>
+            let a1 := Some (add N s11 q1, s22, sd) in
+            match div_nu (mul N v22 v22) nu with
+            | Err e => (a1, Some e)
+            | Ok q2 =>
+                let a2 := Some (add N s11 q1, add N s22 q2, sd) in
+                match (p <- pow2 v12 ;; div_nu (add N (mul N v11 v22) p) nu) with
+                | Err e => (a2, Some e)
+                | Ok q3 => (Some (add N s11 q1, add N s22 q2, add N sd q3), None)
+                end
+            end
+        end
+    end.
+
+  (* _covariance_submatrix(u_re, u_im): (v_rr, v_ri, v_ii) *)
+  Fixpoint covsub_loop (k : state) (all_im : vec) (cur_re cur_im : vec) (a : V * V * V) : res (V * V * V) :=
+    match cur_re, cur_im with
+    | [], [] => Ok a
+    | (kx, xre) :: tre, (kx', xim) :: tim =>
+        let '(vrr, vri, vii) := a in
+        l <- leaf_of N k kx ;;
+        p1 <- pow2 xre ;; p2 <- pow2 xim ;;
+        let vrr := add N vrr p1 in let vii := add N vii p2 in let vri := add N vri (mul N xre xim) in
+        f1 <- fsum N (map (fun kv => mul N (mul N (mul N two_f xre) (snd kv)) (corr_get N l (fst kv))) tre) ;;
+        let vrr := add N vrr f1 in
+        f2 <- fsum N (map (fun kv => mul N (mul N (mul N two_f xim) (snd kv)) (corr_get N l (fst kv))) tim) ;;
+        let vii := add N vii f2 in
+        f3 <- fsum N (map (fun kv => mul N (mul N xre (snd kv)) (corr_get N l (fst kv)))
+                          (filter (fun kv => negb (keqb (fst kv) kx)) all_im)) ;;
+        covsub_loop k all_im tre tim (vrr, add N vri f3, vii)
+    | _, _ => Err AssertionError                  (* assert u_re.keys() == u_im.keys() *)
+    end.
+  Definition covariance_submatrix (k : state) (ure uim : vec) : res (V * V * V) :=
+    if klist_eqb (keys ure) (keys uim) then covsub_loop k uim ure uim (f0, f0, f0) else Err AssertionError.
+
+  Record ecomp := mkEC { ec_re : vec; ec_im : vec; ec_nu : dfval V }.
+  Definition ereg := list (list key * ecomp).
+  Fixpoint ereg_get (r : ereg) (e : list key) : option ecomp :=
+    match r with [] => None | (e', c) :: r' => if klist_eqb e e' then Some c else ereg_get r' e end.
+  Fixpoint ereg_set (r : ereg) (e : list key) (c : ecomp) : ereg :=
+    match r with
+    | [] => [(e, c)]
+    | (e', c') :: r' => if klist_eqb e e' then (e', c) :: r' else (e', c') :: ereg_set r' e c
+    end.
+
+  (* Vector.append: assert self._index[-1].uid < i.uid *)
+  Definition vappend (v : vec) (kx : key) (x : V) : res vec :=
+    match last (map (fun kv => Some (fst kv)) v) None with
+    | Some k' => match kcmp k' kx with Lt => Ok (v ++ [(kx, x)]) | _ => Err AssertionError end
+    | None => Ok [(kx, x)]
+    end.
+
+  Definition accumulate (k : state) (a : acc3) (c : ecomp) : acc3 * option exn :=
+    match covariance_submatrix k (ec_re c) (ec_im c) with
+    | Err e => (a, Some e)
+    | Ok (v11, v12, v22) => acc_add a v11 v12 v22 (ec_nu c)
+    end.
+
+  (* the check over the later dependent influences j of a complex influence i *)
+  Fixpoint wh_check (k : state) (inf_i : bool) (ens_i : list key) (li lim : leaf V) (rest : vec) : res unit :=
+    match rest with
+    | [] => Ok tt
+    | (kj, _) :: rest' =>
+        lj <- leaf_of N k kj ;;
+        if inf_i && df_is_inf N (l_df lj) then wh_check k inf_i ens_i li lim rest'
+        else if negb (kmem kj ens_i) &&
+                ((match assoc (l_corr li) kj with Some _ => true | None => false end) ||
+                 (match assoc (l_corr lim) kj with Some _ => true | None => false end))
+             then Err AssertionError
+        else wh_check k inf_i ens_i li lim rest'
+    end.
+
+  (* the loop over the dependent influences; [ids] = the ids still to visit (re_d restricted),
+     threaded state: accumulators, ensemble registry, skip flag *)
+  Fixpoint wh_dep (k : state) (red imd : vec) (ids : vec) (skip : bool) (reg : ereg) (a : acc3)
+    : acc3 * res ereg :=
+    match ids with
+    | [] => (a, Ok reg)
+    | (kre, _) :: rest =>
+        if skip then wh_dep k red imd rest false reg a
+        else
+          match leaf_of N k kre with
+          | Err e => (a, Err e)
+          | Ok li =>
+              let nu := l_df li in
+              let inf_i := df_is_inf N nu in
+              let ens_i := ens_of N k li in
+              let reg1 := match ens_i with
+                          | [] => reg
+                          | _ => match ereg_get reg ens_i with Some _ => reg | None => reg ++ [(ens_i, mkEC [] [] nu)] end
+                          end in
+              let c0 := match ereg_get reg1 ens_i with Some c => c | None => mkEC [] [] nu end in
+              let getv := fun (v : vec) (kx : key) =>
+                            match get v kx with Some x => Ok x | None => Err (ValueError) end in
+              let upd := (match l_cplx li with
+                          | Some _ =>
+                              match rest with
+                              | [] => Err IndexError                  (* ids_d[i_re + 1] *)
+                              | (kim, _) :: rest2 =>
+                                  lim <- leaf_of N k kim ;;
+                                  _ <- wh_check k inf_i ens_i li lim rest2 ;;
+                                  if inf_i then Ok (c0, true)
+                                  else
+                                    x1 <- getv red kre ;; r1 <- vappend (ec_re c0) kre x1 ;;
+                                    x2 <- getv red kim ;; r2 <- vappend r1 kim x2 ;;
+                                    y1 <- getv imd kre ;; i1 <- vappend (ec_im c0) kre y1 ;;
+                                    y2 <- getv imd kim ;; i2 <- vappend i1 kim y2 ;;
+                                    Ok (mkEC r2 i2 (ec_nu c0), true)
+                              end
+                          | None =>
+                              if negb inf_i && (match rest with [] => false | _ => true end) then Err AssertionError
+                              else if inf_i then Ok (c0, false)
+                              else
+                                x1 <- getv red kre ;; r1 <- vappend (ec_re c0) kre x1 ;;
+                                y1 <- getv imd kre ;; i1 <- vappend (ec_im c0) kre y1 ;;
+                                Ok (mkEC r1 i1 (ec_nu c0), false)
+                          end) in
+              match upd with
+              | Err e => (a, Err e)
+              | Ok (c1, skip') =>
+                  match ens_i with
+                  | [] =>
+                      match accumulate k a c1 with
+                      | (a', Some e) => (a', Err e)
+                      | (a', None) => wh_dep k red imd rest skip' reg1 a'
+                      end
+                  | _ => wh_dep k red imd rest skip' (ereg_set reg1 ens_i c1) a
+                  end
+              end
+          end
+    end.
+
+  Fixpoint wh_finish (k : state) (cs : list ecomp) (a : acc3) : acc3 * option exn :=
+    match cs with
+    | [] => (a, None)
+    | c :: cs' => match accumulate k a c with
+                  | (a', Some e) => (a', Some e)
+                  | (a', None) => wh_finish k cs' a'
+                  end
+    end.
+
+  Fixpoint wh_indep (k : state) (reu imu : vec) (a : acc3) : acc3 * option exn :=
+    match reu, imu with
+    | (kx, xr) :: tr, (_, xi) :: ti =>
+        match leaf_of N k kx with
+        | Err e => (a, Some e)
+        | Ok l =>
+            match l_df l with
+            | DInf => wh_indep k tr ti a
+            | nu =>
+                match (v11 <- pow2 xr ;; v22 <- pow2 xi ;; Ok (v11, v22)) with
+                | Err e => (a, Some e)
+                | Ok (v11, v22) =>
+                    match acc_add a v11 (mul N xr xi) v22 nu with
+                    | (a', Some e) => (a', Some e)
+                    | (a', None) => wh_indep k tr ti a'
+                    end
+                end
+            end
+        end
+    | _, _ => (a, None)
+    end.
+
+  (* std_variance_covariance_complex(x): re.v, im.v (which fill the _u caches of the component
+     reals) and std_covariance_real *)
+  Definition svcc (k : state) (jr ji : nat) : state * res (V * V * V * V) :=
+    match get_real N k jr with
+    | Err e => (k, Err e)
+    | Ok (_, ore, cr) =>
+        match prop_v N k ore cr with
+        | Err e => (k, Err e)
+        | Ok (vr, cr') =>
+            let k1 := set_cache N k jr ore cr' in
+            match get_real N k1 ji with
+            | Err e => (k1, Err e)
+            | Ok (_, oim, ci) =>
+                match prop_v N k1 oim ci with
+                | Err e => (k1, Err e)
+                | Ok (vi, ci') =>
+                    let k2 := set_cache N k1 ji oim ci' in
+                    match std_covariance_real N k2 ore oim with
+                    | Err e => (k2, Err e)
+                    | Ok cv => (k2, Ok (vr, cv, cv, vi))
+                    end
+                end
+            end
+        end
+    end.
+
+  Definition all_inf_keys (k : state) (v : vec) : res bool := all_inf N k v.
+
+  Definition to_dfval (d : V) : dfval V :=
+    if is_nan N d then DNaN else if is_inf N d then DInf else DFin d.
+
+  (* willink_hall(x) for the complex object with component slots jr, ji; returns the new
+     kernel state (caches), the accumulators as the call leaves them, and (cv, df) *)
+  Definition willink_hall (k : state) (a : acc3) (jr ji : nat) (ore oim : ureal)
+    : state * acc3 * res (V * V * V * V * dfval V) :=
+    if is_constant N ore && is_constant N oim then (k, a, Ok (f0, f0, f0, f0, DInf))
+    else if (is_elementary N ore && is_elementary N oim)
+            || (is_elementary N ore && is_constant N oim)
+            || (is_elementary N oim && is_constant N ore) then
+      (k, a,
+       vr <- (if is_elementary N ore then '(v, _) <- prop_v N k ore None ;; Ok v else Ok f0) ;;
+       vi <- (if is_elementary N oim then '(v, _) <- prop_v N k oim None ;; Ok v else Ok f0) ;;
+       cv <- (if is_elementary N ore && is_elementary N oim then get_covariance_real N k ore oim else Ok f0) ;;
+       '(d, _) <- prop_df N k (if is_elementary N ore then ore else oim) None ;;
+       Ok (vr, cv, cv, vi, d))
+    else
+      let reu := extend (uc ore) (uc oim) in let imu := extend (uc oim) (uc ore) in
+      let red := extend (dc ore) (dc oim) in let imd := extend (dc oim) (dc ore) in
+      match all_inf N k reu, all_inf N k red with
+      | Err e, _ => (k, a, Err e)
+      | _, Err e => (k, a, Err e)
+      | Ok iu, Ok id =>
+          if iu && id then
+            match svcc k jr ji with
+            | (k1, Ok v) => (k1, a, Ok (v, DInf))
+            | (k1, Err e) => (k1, a, Err e)
+            end
+          else
+            let a0 : acc3 := Some (f0, f0, f0) in                 (* _EnsembleComponents.clear() *)
+            match wh_indep k reu imu a0 with
+            | (a1, Some e) => (k, a1, Err e)
+            | (a1, None) =>
+                match wh_dep k red imd red false [] a1 with
+                | (a2, Err e) => (k, a2, Err e)
+                | (a2, Ok reg) =>
+                    match wh_finish k (map snd reg) a2 with
+                    | (a3, Some e) => (k, a3, Err e)
+                    | (a3, None) =>
+                        match svcc k jr ji with
+                        | (k1, Err e) => (k1, a3, Err e)
+                        | (k1, Ok (s11, s12, s21, s22)) =>
+                            if eqb N s11 f0 && eqb N s12 f0 && eqb N s22 f0 then (k1, a3, Ok (s11, s12, s21, s22, DNaN))
+                            else
+                              (k1, a3,
+                               match a3 with
+                               | None => Err TypeError
+                               | Some (q11, q22, qd) =>
+                                   p <- pow2 (add N s11 s22) ;; u2 <- div N p (dyad N 4 0) ;;
+                                   A <- div N (mul N (mul N two_f s11) s11) u2 ;;
+                                   D <- div N (add N (mul N s11 s22) (mul N s12 s12)) u2 ;;
+                                   F <- div N (mul N (mul N two_f s22) s22) u2 ;;
+                                   a' <- div N (mul N two_f q11) u2 ;;
+                                   d' <- div N qd u2 ;;
+                                   f' <- div N (mul N two_f q22) u2 ;;
+                                   let num := add N (add N A D) F in
+                                   let den := add N (add N a' d') f' in
+                                   match div N num den with
+                                   | Ok d => Ok (s11, s12, s21, s22, to_dfval d)
+                                   | Err ZeroDivisionError => Ok (s11, s12, s21, s22, DInf)
+                                   | Err e => Err e
+                                   end
+                               end)
+                        end
+                    end
+                end
+            end
+      end.
+
+  (* the df property of an UncertainComplex: willink_hall, then _v is set if absent *)
+  Definition cread_df (s : cstate) (a : nat) : cstate * out :=
+    match get_cplx s a with
+    | Err e => cfail1 s e
+    | Ok (j, m, (jr, ore), (ji, oim)) =>
+        match willink_hall (ks s) (wacc s) jr ji ore oim with
+        | (k1, a1, Err e) => cfail1 (with_acc (with_ks s k1) a1) e
+        | (k1, a1, Ok (v11, v12, v21, v22, d)) =>
+            let s1 := with_acc (with_ks s k1) a1 in
+            let s2 := match cm_v m with
+                      | Some _ => s1
+                      | None => set_meta s1 j (mkCM (cm_im m) (cm_label m) (cm_elem m) (cm_u m)
+                                                    (Some (v11, v12, v21, v22)) (cm_r m))
+                      end in
+            (kpush s2 SErr, OutDof d)
+        end
+    end.
+
+  (* ---------- UncertainComplex.set_correlation (lib.py 2737-2792) ---------- *)
+  (* one set_correlation_real(x1, x2, r) on the objects in slots ia, ib; the TypeError message
+     formats both arguments with repr() *)
+  Definition scr (k : state) (r : V) (ia ib : nat) : state * option exn :=
+    match get_real N k ia, get_real N k ib with
+    | Ok (_, oa, _), Ok (_, ob, _) =>
+        match set_correlation_real N k r oa ob with
+        | Ok k' => (k', None)
+        | Err TypeError =>
+            match repr_effect N k ia with
+            | (k1, Some e) => (k1, Some e)
+            | (k1, None) =>
+                match repr_effect N k1 ib with
+                | (k2, Some e) => (k2, Some e)
+                | (k2, None) => (k2, Some TypeError)
+                end
+            end
+        | Err e => (k, Some e)
+        end
+    | Err e, _ => (k, Some e)
+    | _, Err e => (k, Some e)
+    end.
+
+  Fixpoint scr_list (k : state) (l : list (V * nat * nat)) : state * option exn :=
+    match l with
+    | [] => (k, None)
+    | (r, ia, ib) :: l' =>
+        match scr k r ia ib with
+        | (k1, None) => scr_list k1 l'
+        | (k1, Some e) => (k1, Some e)
+        end
+    end.
+
+  Definition rform_is_zero (r : rform V) : bool :=
+    match r with RScalar v => eqb N v f0 | RSeq _ => false end.
+
+  Definition cset_corr (s : cstate) (r : rform V) (a : nat) (b : option (carg V)) : cstate * out :=
+    if rform_is_zero r then (kpush s SErr, OutUnit)          (* core.set_correlation: if r == 0.0: return *)
+    else
+      match get_cplx s a with
+      | Err e => cfail1 s e
+      | Ok (_, _, (jr, ore), (ji, oim)) =>
+          let fin := fun (res : state * option exn) =>
+                       match res with
+                       | (k1, None) => (kpush (with_ks s k1) SErr, OutUnit)
+                       | (k1, Some e) => cfail1 (with_ks s k1) e
+                       end in
+          match b with
+          | None =>
+              match r with
+              | RScalar v => fin (scr (ks s) v jr ji)
+              | RSeq _ => cfail1 s TypeError
+              end
+          | Some (CArgR ib) =>
+              (* TypeError("illegal argument {!r}".format(arg)) *)
+              match repr_effect N (ks s) ib with
+              | (k1, None) => cfail1 (with_ks s k1) TypeError
+              | (k1, Some e) => cfail1 (with_ks s k1) e
+              end
+          | Some (CArgC ib) =>
+              match get_cplx s ib with
+              | Err e => cfail1 s e
+              | Ok (_, _, (kr, xre), (ki, xim)) =>
+                  match r with
+                  | RSeq [r0; r1; r2; r3] =>
+                      if eqb N r0 f0 && eqb N r1 f0 && eqb N r2 f0 && eqb N r3 f0 then (kpush s SErr, OutUnit)
+                      else
+                        let four := [(r0, jr, kr); (r1, jr, ki); (r2, ji, kr); (r3, ji, ki)] in
+                        match node_df N (ks s) ore with
+                        | Err e => cfail1 s e
+                        | Ok d1 =>
+                            match (if df_is_inf N d1 then d2 <- node_df N (ks s) xim ;; Ok (df_is_inf N d2) else Ok false) with
+                            | Err e => cfail1 s e
+                            | Ok true => fin (scr_list (ks s) four)
+                            | Ok false =>
+                                (* n_re2.uid in n_re1.ensemble *)
+                                match unode xre, unode ore with
+                                | NoNode, _ => cfail1 s AttributeError
+                                | _, LeafRef k1 =>
+                                    match leaf_of N (ks s) k1 with
+                                    | Err e => cfail1 s e
+                                    | Ok l1 =>
+                                        if l_indep l1 then cfail1 s AttributeError
+                                        else
+                                          let inens := match unode xre with
+                                                       | LeafRef k2 | NodeRef k2 => kmem k2 (ens_of N (ks s) l1)
+                                                       | _ => false
+                                                       end in
+                                          if inens then fin (scr_list (ks s) four) else cfail1 s RuntimeError
+                                    end
+                                | _, _ => cfail1 s AttributeError
+                                end
+                            end
+                        end
+                  | _ => cfail1 s TypeError
+                  end
+              end
+          | Some (CArgN _) => cfail1 s TypeError
+          end
+      end.
+
   (* ---------- the state machine ---------- *)
   Definition is_cplx_num (x : cnumv V) : bool := match x with NC _ _ => true | NR _ => false end.
 
@@ -751,7 +1219,46 @@ Section CKernel.
                 | CArgC _ => cfail2 s OtherExn
                 end
             end
-        | _, _ => cfail2 s TypeError
+        | CArgR ia, CArgN x =>
+            match get_real N (ks s) ia with
+            | Err e => cfail2 s e
+            | Ok (ja, oa, _) =>
+                match x with
+                | NC _ _ => finish_any s (rapply_bin_c f false (ja, oa) (to_pyn x)) ja ja
+                | NR v =>
+                    match apply_bin N f (OpdU oa) (OpdN v) with
+                    | Ok VComplex => finish_any s (promote_pow false (ja, oa) (OthN (PR v)) (None, None)) ja ja
+                    | Ok v' => finish_any s (Ok (RReal v')) ja ja
+                    | Err e => cfail2 s e
+                    end
+                end
+            end
+        | CArgN x, CArgR ib =>
+            match get_real N (ks s) ib with
+            | Err e => cfail2 s e
+            | Ok (jb, ob, _) =>
+                match x with
+                | NC _ _ => finish_any s (rapply_bin_c f true (jb, ob) (to_pyn x)) jb jb
+                | NR v =>
+                    match apply_bin N f (OpdN v) (OpdU ob) with
+                    | Ok VComplex => finish_any s (promote_pow true (jb, ob) (OthN (PR v)) (None, None)) jb jb
+                    | Ok v' => finish_any s (Ok (RReal v')) jb jb
+                    | Err e => cfail2 s e
+                    end
+                end
+            end
+        | CArgR ia, CArgR ib =>
+            match get_real N (ks s) ia, get_real N (ks s) ib with
+            | Ok (ja, oa, _), Ok (jb, ob, _) =>
+                match apply_bin N f (OpdU oa) (OpdU ob) with
+                | Ok VComplex => finish_any s (promote_pow false (ja, oa) (OthR ob) (Some jb, None)) ja jb
+                | Ok v' => finish_any s (Ok (RReal v')) ja jb
+                | Err e => cfail2 s e
+                end
+            | Err e, _ => cfail2 s e
+            | _, Err e => cfail2 s e
+            end
+        | CArgN _, CArgN _ => cfail2 s TypeError
         end
     | CResult a label =>
         (* UncertainComplex._intermediate: the two components in turn, then a NEW complex object *)
@@ -771,7 +1278,7 @@ Section CKernel.
                     | Ok (_, re, _), Ok (_, im, _) =>
                         if Bool.eqb (is_intermediate N re) (is_intermediate N im) then
                           (mkCS k2 (cobjs s ++ [(i, CObj (mkCM (S i) label (is_elementary N re || is_elementary N im)
-                                                                None None None))]),
+                                                                None None None))]) (wacc s),
                            OutList [o1; o2])
                         else (with_ks s k2, OutExn AssertionError)
                     | _, _ => (with_ks s k2, OutExn OtherExn)
@@ -791,6 +1298,8 @@ Section CKernel.
         | (s1, Err e) => cfail1 s1 e
         end
     | CRead CR_r a => cread_r s a
+    | CRead CR_df a => cread_df s a
+    | CSetCorr r a b => cset_corr s r a b
     | CSens y x => csens_step true s y x
     | CUComp y x => csens_step false s y x
     end.
